@@ -287,6 +287,24 @@ def check_transforms(run):
         clear_engine_cache()
         if c != exp:
             O.fail('C01.transforms_before_matching', {'transform_case': [desc, fld]}, exp, c, 'normalize_merchant(..., transforms=...)')
+    # transform targets written with capitals (names are case-insensitive), and a transform that creates a custom field on a transaction whose source has
+    # no custom captures (field is None there)
+    text2 = ('field.Description = regex_replace(field.Description, "^PFX\\\\s+", "")\n'
+             'field.MEMO = uppercase(trim(field.memo))\n'
+             'field.kind = "card"\n\n'
+             '[Memo]\nmatch: field.memo == "REF" and startswith("AAA")\ncategory: CatMemo\nsubcategory: S\n\n'
+             '[Kind]\nmatch: startswith("AAA") and exists(field.kind) and field.kind == "card"\ncategory: CatKind\nsubcategory: S\n\n'
+             '[A]\nmatch: startswith("AAA")\ncategory: CatA\nsubcategory: SubA\n')
+    open(path, 'w').write(text2)
+    for desc, fld, exp in (('PFX AAA STORE', {'memo': ' ref '}, 'CatMemo'), ('PFX AAA STORE', {'memo': 'zzz'}, 'CatKind'), ('PFX AAA STORE', None, 'CatKind'), ('PFX AAA STORE', {}, 'CatKind')):
+        O.case(('transform2', desc, str(fld)))
+        clear_engine_cache()
+        tuples = get_all_rules(path)
+        tr = get_transforms(path)
+        m, c, s, info = normalize_merchant(desc, tuples, amount=5.0, txn_date=date(2025, 1, 1), field=dict(fld) if fld is not None else None, transforms=tr)
+        clear_engine_cache()
+        if c != exp:
+            O.fail('C01.transforms_before_matching', {'transform_case': [desc, fld], 'rules_text': text2}, exp, c, 'normalize_merchant(..., transforms=...)')
 
 
 def run(prop):
